@@ -144,11 +144,11 @@ let run (t : string list) : string =
        | None -> "-"
        | Some c -> (match c with
            | Known.NotComplement -> "NotComplement" | Known.LiteralDropped -> "LiteralDropped"
-           | Known.FloatColumn -> "FloatColumn" | Known.BoolColumn -> "BoolColumn" | Known.NeqPruned -> "NeqPruned"
-           | Known.EnumUnknownVariant -> "EnumUnknownVariant" | Known.U64NegativeThreshold -> "U64NegativeThreshold"
-           | Known.U64AboveI64Max -> "U64AboveI64Max" | Known.NumericLookingString -> "NumericLookingString"
-           | Known.StringOrdering -> "StringOrdering" | Known.NullSpelling -> "NullSpelling"
-           | Known.TemporalNegativeLiteral -> "TemporalNegativeLiteral" | Known.IllTyped -> "IllTyped"))
+           | Known.FloatColumnIn -> "FloatColumnIn" | Known.FloatThresholdRounded -> "FloatThresholdRounded"
+           | Known.U64NegativeThreshold -> "U64NegativeThreshold" | Known.U64AboveI64Max -> "U64AboveI64Max"
+           | Known.NumericLookingString -> "NumericLookingString" | Known.StringOrdering -> "StringOrdering"
+           | Known.NullSpelling -> "NullSpelling" | Known.NeqOnOptionalText -> "NeqOnOptionalText"
+           | Known.IllTyped -> "IllTyped"))
   | ["query_plan"; sch; q] ->
       let sch = schema_in sch and q = query_in q in
       (match q.E.q_where with
